@@ -225,12 +225,13 @@ def run_case(seed, mode, states):
             pol = C.make_oracle_retry_policy(script=list(decisions) + ([(C.RETRY_NEXT_HOST, None)] * 2 if target is not None else []))
             stm = SimpleStatement(uid_query(uid), retry_policy=pol, consistency_level=rng.choice(C.CLS))
             m_seen, m_plans = len(plan.seen), len(lbp.plans)
-            if target is None:
-                lbp.order = list(order_)
-                fut = rec.execute_async(session, uid, statement=stm, timeout=None)
-            else:
-                lbp.order = [a for a in addrs if a != target]       # would be used if host= were ignored
-                fut = rec.execute_async(session, uid, statement=stm, timeout=None, host=hosts[target])
+            with env.world.inspect():      # callbacks registered before any answer can be processed
+                if target is None:
+                    lbp.order = list(order_)
+                    fut = rec.execute_async(session, uid, statement=stm, timeout=None)
+                else:
+                    lbp.order = [a for a in addrs if a != target]       # would be used if host= were ignored
+                    fut = rec.execute_async(session, uid, statement=stm, timeout=None, host=hosts[target])
             env.world.advance_to(env.world.now + 2.2 * (states_.count('busy') + 1) * 2 + 1.0)
             env.world.settle(advance=False)
             lbp.order = None
@@ -328,7 +329,8 @@ def run_case(seed, mode, states):
                 plan.set(uid, ['rows'])
                 stm = SimpleStatement(uid_query(uid))
                 m_seen = len(plan.seen)
-                rec.execute_async(session, uid, statement=stm, timeout=None, host=hosts[t])
+                with env.world.inspect():
+                    rec.execute_async(session, uid, statement=stm, timeout=None, host=hosts[t])
                 env.world.advance_to(env.world.now + 3.0)
                 env.world.settle(advance=False)
                 with env.world.inspect():
@@ -364,7 +366,7 @@ def run(ctx):
                "reason recorded and the walk continues; borrowing from a busy pool may wait (2 s in the driver) before giving up")
     ctx.assume("RETRY_NEXT_HOST with explicit host= targeting has no next host: the expected outcome is NoHostAvailable listing that host")
     cases = all_cases()
-    budget = 45 if ctx.quick else 420
+    budget = 40 if ctx.quick else 420
     base = ctx.seed * 1000003
     done_slice = True
     if ctx.quick:
